@@ -157,6 +157,7 @@ class SimServer(object):
     self.conns = []
     self.connect_attempts = []       # (vt, outcome)
     self.send_delay = None           # callable(conn) -> float: client send takes time
+    self.partial_writes = True       # a stalled send commits a prefix first
 
   @property
   def ep(self):
@@ -354,26 +355,32 @@ class SimSocket(object):
       raise _oserr(errno.EPIPE if f.kind != 'error' else f.err)
     if conn.server_closed == 'rst':
       raise _oserr(errno.EPIPE)
-    # The bytes are committed to the connection now (this is the send event);
-    # a stalled peer (full buffers) keeps the caller blocked and sees them later.
+    # A stalled peer (full buffers): a prefix of the data is accepted at once (that
+    # is the first send event), the caller stays blocked, the rest follows when the
+    # peer drains.  If the caller is interrupted meanwhile only the prefix was written.
     data = bytes(data)
-    start = len(conn.c2s)
-    ev = env.emit('net.send', conn=conn.id, op=ordinal, n=len(data), start=start)
-    conn.sends.append((start, start + len(data), ev['seq'], ev['vt']))
-    conn.c2s += data
-    if f is not None and f.kind == 'silence':
-      # bytes vanish (peer never sees them); nothing else happens
-      conn.consumed = len(conn.c2s)
-      return
     d = conn.server.send_delay(conn) if conn.server.send_delay else 0.0
-    if d and d > 0:
-      self._block(d, side='w')
-      if self.closed:
-        raise _oserr(errno.EBADF)
-    if conn.server_closed:
-      return            # FIN'd peer: bytes are dropped silently
-    if conn.handler is not None and not conn.client_closed:
-      conn.handler.on_data(conn)
+    parts = [data]
+    if d and d > 0 and len(data) > 1 and conn.server.partial_writes:
+      cut = self.net.env.case_rng.randint(1, len(data) - 1)
+      parts = [data[:cut], data[cut:]]
+    for pi, part in enumerate(parts):
+      start = len(conn.c2s)
+      ev = env.emit('net.send', conn=conn.id, op=ordinal, n=len(part), start=start, part=pi)
+      conn.sends.append((start, start + len(part), ev['seq'], ev['vt']))
+      conn.c2s += part
+      if f is not None and f.kind == 'silence':
+        # bytes vanish (peer never sees them); nothing else happens
+        conn.consumed = len(conn.c2s)
+        continue
+      if pi == 0 and d and d > 0:
+        self._block(d, side='w')
+        if self.closed:
+          raise _oserr(errno.EBADF)
+      if conn.server_closed:
+        continue          # FIN'd peer: bytes are dropped silently
+      if conn.handler is not None and not conn.client_closed and (pi == len(parts) - 1):
+        conn.handler.on_data(conn)
 
   def recv(self, n, flags=0):
     buf = bytearray(n)
